@@ -76,6 +76,21 @@ def upperOK (n d k : Nat) : Bool :=
 def isNearestMag (n d k : Nat) : Bool :=
   decide (0 < d) && decide (k ≤ infOrd) && lowerOK n d k && upperOK n d k
 
+/-! ### the rounding FUNCTION (rational → ordinal of the nearest double, ties to even)
+
+`lowerOK n d k` is true for small `k` and false for large `k`; the nearest double is the greatest `k ≤ infOrd` for
+which it is true.  Found by bisection (64 steps suffice: `infOrd + 1 ≤ 2^64`).  `Props.roundOrd_isNearest` proves that
+the result satisfies the acceptance predicate, `roundOrd_complete` that nothing else does. -/
+
+def bisect (n d : Nat) : Nat → Nat → Nat → Nat
+  | 0, lo, _ => lo
+  | fuel + 1, lo, hi =>
+    if hi ≤ lo + 1 then lo else
+    let mid := (lo + hi) / 2
+    if lowerOK n d mid then bisect n d fuel mid hi else bisect n d fuel lo mid
+
+def roundOrd (n d : Nat) : Nat := bisect n d 64 0 (infOrd + 1)
+
 /-- Signed version: `q = (-1)^neg * n/d` rounds to `f` (sign of zero results follows the sign of the text). -/
 def isNearest (neg : Bool) (n d : Nat) (f : F64) : Bool :=
   (f.neg == neg) && !f.isNaN && isNearestMag n d f.ord
@@ -173,8 +188,12 @@ def digitChar (d : Nat) : Char :=
 
 def digitsStr (ds : List Nat) : List Char := ds.map digitChar
 
+def decDigitsAux : Nat → Nat → List Nat → List Nat
+  | 0, n, acc => n :: acc
+  | fuel + 1, n, acc => if n < 10 then n :: acc else decDigitsAux fuel (n / 10) (n % 10 :: acc)
+
 /-- Decimal digits of a Nat, most significant first (`0 ↦ [0]`). -/
-def natDigits (n : Nat) : List Nat := (Nat.toDigits 10 n).map digitVal
+def natDigits (n : Nat) : List Nat := decDigitsAux n n []
 
 /-- Scanned decimal literal:  intDigits [. fracDigits] [e [+-] expDigits]. -/
 structure DecLit where
@@ -185,29 +204,37 @@ structure DecLit where
   hasExp : Bool
   rest : List Char
 
+/-- `[. fracDigits]` — returns (fraction digits, saw a dot, rest). -/
+def scanFrac (r1 : List Char) : List Nat × Bool × List Char :=
+  match r1 with
+  | '.' :: r => ((takeDigits 10 r).1, true, (takeDigits 10 r).2)
+  | _ => ([], false, r1)
+
+def scanSign (r : List Char) : Int × List Char :=
+  match r with
+  | '+' :: r' => (1, r')
+  | '-' :: r' => (-1, r')
+  | _ => (1, r)
+
+/-- `[e [+-] expDigits]` — consumed only when complete; returns (exponent, saw an exponent, rest). -/
+def scanExp (r2 : List Char) : Int × Bool × List Char :=
+  match r2 with
+  | c :: r =>
+    if c == 'e' || c == 'E' then
+      let sr := scanSign r
+      let t := takeDigits 10 sr.2
+      if t.1.isEmpty then (0, false, r2) else (sr.1 * ((natOfDigits 10 t.1 : Nat) : Int), true, t.2)
+    else (0, false, r2)
+  | [] => (0, false, r2)
+
 /-- StrUnsignedDecimalLiteral as a longest-prefix scanner (the exponent part is consumed only when complete).
-`none` when there is no digit at all. -/
+`none` when there is no digit at all ("5." : the dot is part of the literal; "." alone is not a literal). -/
 def scanDec (cs : List Char) : Option DecLit :=
-  let (i, r1) := takeDigits 10 cs
-  let (f, hasDot, r2) :=
-    match r1 with
-    | '.' :: r => let (f, r2) := takeDigits 10 r; (f, true, r2)
-    | _ => ([], false, r1)
-  if i.isEmpty && f.isEmpty then none else
-  -- "5." : the dot is part of the literal; "." alone is not a literal
-  let (e, hasExp, r3) :=
-    match r2 with
-    | c :: r =>
-      if c == 'e' || c == 'E' then
-        let (sgn, r') := match r with
-          | '+' :: r' => ((1 : Int), r')
-          | '-' :: r' => ((-1 : Int), r')
-          | _ => ((1 : Int), r)
-        let (ed, r3) := takeDigits 10 r'
-        if ed.isEmpty then ((0 : Int), false, r2) else (sgn * (natOfDigits 10 ed : Nat), true, r3)
-      else ((0 : Int), false, r2)
-    | [] => ((0 : Int), false, r2)
-  some { int := i, frac := f, hasDot := hasDot, exp := e, hasExp := hasExp, rest := r3 }
+  let t := takeDigits 10 cs
+  let f := scanFrac t.2
+  if t.1.isEmpty && f.1.isEmpty then none else
+  let e := scanExp f.2.2
+  some { int := t.1, frac := f.1, hasDot := f.2.1, exp := e.1, hasExp := e.2.1, rest := e.2.2 }
 
 /-- What a piece of numeric text denotes. `huge`/`tiny`: non-zero magnitude ≥ 10^400 / < 10^-400 (far outside
 the double range; not expanded to avoid astronomically large powers). -/
@@ -234,9 +261,13 @@ def denote (neg : Bool) (ds : List Nat) (e : Int) : Parsed :=
 def DecLit.denote (neg : Bool) (l : DecLit) : Parsed :=
   GojaModel.C12.denote neg (l.int ++ l.frac) (l.exp - (l.frac.length : Nat))
 
+/-- ECMA-262 StrWhiteSpaceChar: WhiteSpace (TAB, VT, FF, ZWNBSP and the Unicode category Zs: SP, NBSP, U+1680,
+U+2000–U+200A, U+202F, U+205F, U+3000) and LineTerminator (LF, CR, LS, PS).  U+0085, U+180E, U+200B are not. -/
 def isWhite (c : Char) : Bool :=
-  c == ' ' || c == '\t' || c == '\n' || c == '\r' || c.toNat == 0x0b || c.toNat == 0x0c || c.toNat == 0xa0 ||
-  c.toNat == 0xfeff || c.toNat == 0x2028 || c.toNat == 0x2029
+  let n := c.toNat
+  n == 0x09 || n == 0x0a || n == 0x0b || n == 0x0c || n == 0x0d || n == 0x20 || n == 0xa0 || n == 0x1680 ||
+  (0x2000 ≤ n && n ≤ 0x200a) || n == 0x2028 || n == 0x2029 || n == 0x202f || n == 0x205f || n == 0x3000 ||
+  n == 0xfeff
 
 def trimL : List Char → List Char
   | c :: cs => if isWhite c then trimL cs else c :: cs
@@ -331,12 +362,22 @@ def Parsed.accepts (p : Parsed) (f : F64) (zeroSignFree : Bool := false) : Bool 
   | .rat neg n d =>
     if f.isZero && zeroSignFree then isNearestMag n d 0 else isNearest neg n d f
 
+/-- The bit pattern the text must convert to, computed with the proved rounding function (`none` for NaN, whose
+payload is free). -/
+def Parsed.expectedBits : Parsed → Option Nat
+  | .nan => none
+  | .inf neg => some ((if neg then 2 ^ 63 else 0) + infOrd)
+  | .zero neg => some (if neg then 2 ^ 63 else 0)
+  | .huge neg => some ((if neg then 2 ^ 63 else 0) + infOrd)
+  | .tiny neg => some (if neg then 2 ^ 63 else 0)
+  | .rat neg n d => some ((if neg then 2 ^ 63 else 0) + roundOrd n d)
+
 /-! ### layout rules -/
 
 def zeros (n : Nat) : List Char := List.replicate n '0'
 
 def expSuffix (e : Int) : List Char :=
-  'e' :: (if e < 0 then '-' else '+') :: (toString e.natAbs).toList
+  'e' :: (if e < 0 then '-' else '+') :: digitsStr (natDigits e.natAbs)
 
 /-- `d[.ddd]e±E` for digits `ds` and decimal point position `n` (value = 0.ds × 10^n). -/
 def expFormat (ds : List Nat) (n : Int) : List Char :=
